@@ -216,6 +216,7 @@ _add('C02', [('/pwr/bowl', '(*overlayBowl).Save'), ('/pwr/bowl', '(*overlayBowl)
 _add('C03', [('/pwr/bowl', '(*overlayBowl).Save'), ('/pwr/bowl', '(*overlayBowl).Resume')])
 _add('C14', [('/pwr/bowl', '(*overlayBowl).Save'), ('/pwr/bowl', '(*overlayBowl).Resume')])
 _add('C17', [('/pwr/patcher', '(*savingPatcher).SetSourceIndexWhitelist'), ('/pwr/patcher', '(*savingPatcher).GetTouchedFiles')])
+_add('C17', PATCHER_SERIES)   # the series of a whitelisted file is consumed up to its end marker (seeded C17-k2)
 _add('C05', [('/pwr', 'isMissing')])
 _add('C06', [('/pwr', 'isMissing')])
 _add('C18', [('/pwr', '(*ValidatingPool).GetWriter')])
